@@ -109,7 +109,10 @@ class Attr:
     @classmethod
     def from_attr_value(cls, name, value, **kwargs):
         if isinstance(value, Attr):
-            attr_spec = copy.deepcopy(value)
+            # (a declared default may hold modules, like any other value)
+            from spec_classes.utils.mutation import protect_via_deepcopy
+
+            attr_spec = protect_via_deepcopy(value)
         elif isinstance(value, dataclasses.Field):
             attr_spec = Attr(
                 default=MISSING
